@@ -2,7 +2,7 @@
 from ..core import (Body, callee_name, norm, op_const, op_place, proj_path, as_cmp, leaf_s, OK, F0, F1, SOME, ELEM)
 from ..guards import root_ids, body_of, def_call
 from ..ss import Schema
-from . import canon, C16, shared
+from . import canon, C16, shared, keys
 
 EXPLANATION = (
     "Coverage and structure rules. D1: every field of every type in the serialisation closure of MetadataWrapper is "
@@ -22,6 +22,7 @@ FLOORS = {"C05/D1": 22, "C05/D2": 20, "C05/D3": 8}
 
 
 def run(ctx):
+    canon.resolve_names(ctx)
     fx = ctx.fx
     S = Schema(fx)
     closure = sorted(S.wire_closure(["models::metadata::MetadataWrapper"]))
@@ -56,19 +57,20 @@ def run(ctx):
     # shims (metadata -> wire struct), only the `from` direction matters for signing
     C16.check_shims(ctx, S, "C05/D1")
     # expiry to the second
-    ff = fx.fn_opt("models::layout::format_datetime")
+    ff = fx.fn_opt("models::layout::Layout::from")
     if ff:
-        b = body_of(fx, ff["key"])
+        # in the REGION of the metadata -> wire conversion (the private formatter inlined)
+        b = ctx.region(None, policy="private", key=ff["key"])
         calls = b.calls_named("chrono::DateTime::to_rfc3339_opts")
         oks = len(calls) == 1
         fmt = None
         if oks:
             lv = b.trace(calls[0][1]["args"][1])
             fmt = [l.data[2].get("variant") if l.kind == "agg" else leaf_s(b, l) for l in lv]
-            oks = fmt == ["Secs"] and root_ids(b, calls[0][1]["args"][0]) == frozenset([("param", 1, ())])
-        ctx.inst("C05/D1", "expiry is written to the second", oks, "format_datetime = to_rfc3339_opts(%s, ..)" % fmt, ff["at"])
+            oks = fmt == ["Secs"] and root_ids(b, calls[0][1]["args"][0]) == frozenset([("param", 1, (("f", "expires"),))])
+        ctx.inst("C05/D1", "expiry is written to the second", oks, "the expiry is formatted by to_rfc3339_opts(%s, ..) applied to meta.expires" % fmt, ff["at"])
     else:
-        ctx.bad("C05/D1", "expiry formatter", "models::layout::format_datetime not found")
+        ctx.bad("C05/D1", "expiry formatter", "models::layout::Layout::from not found")
     # hand-written rule serialiser: every binding of every variant reaches an emitted element
     rs = S.ser_fn.get("models::layout::rule::ArtifactRule")
     if rs is None:
@@ -108,7 +110,8 @@ def run(ctx):
     ser = [g for g in fx.doc["fns"] if g["path"].startswith("<crypto::PublicKey as") and g["path"].endswith("Serialize>::serialize")]
     if len(ser) == 1:
         b = body_of(fx, ser[0]["key"])
-        sc = b.calls_named("crypto::shim_public_key")
+        shim = keys.find_shim_fn(fx)
+        sc = b.calls_named(shim["path"]) if shim else []
         got = []
         if len(sc) == 1:
             for ai in range(4):
